@@ -175,10 +175,27 @@ func runC07Case(cc *c07Case) *c07Result {
 	}
 	var pending []*pend
 	streams := h.StreamIDs
-	for _, k := range cc.Pending {
+	kinds := append([]string{}, cc.Pending...)
+	if hasContent && cc.Variant == media.VarLL && cc.Index%4 == 2 {
+		// a reload that names one of the initial gap segments still listed (answered at once, or
+		// parked: either way Close must not depend on it)
+		kinds = append(kinds, "gap-reload")
+	}
+	for _, k := range kinds {
 		id := streams[rng.Intn(len(streams))]
 		url := ""
 		switch k {
+		case "gap-reload":
+			gap := -1
+			for _, sg := range lastPL.Segments {
+				if sg.Gap {
+					gap = sg.MSN
+				}
+			}
+			if gap < 0 {
+				continue
+			}
+			url = fmt.Sprintf("%s_stream.m3u8?_HLS_msn=%d&_HLS_part=0", id, gap)
 		case "mv-wait":
 			if hasContent {
 				continue
@@ -206,6 +223,12 @@ func runC07Case(cc *c07Case) *c07Result {
 		if st != hx.Parked {
 			if st == hx.Done {
 				res.obs["pending_not_parked."+k]++
+				continue
+			}
+			if k == "gap-reload" {
+				// not parked on the condition variable and not answered: the handler is running (or
+				// waiting for a lock) long after it should have decided
+				fail("request-neither-parked-nor-answered", "request %s neither parked nor completed within the watchdog", url)
 				continue
 			}
 			fail("harness", "request %s neither parked nor completed", url)
